@@ -1496,10 +1496,30 @@ def random_hist(rng, entries):
     return h.line()
 
 
+def lsearch0_hist(rng, entries, id_):
+    """the step-initialisation strategies keep a history between calls; `probe` on two lsearch0 variables makes three calls on
+    each and leaves both USED, so the second clone below is the clone of a used object (seeded change C19-d3: clone() resetting the
+    history). Only pairs with the same usage history are probed (a fresh and a used object with equal parameters legitimately differ)."""
+    h = OwnerHist(rng, entries)
+    v = h.configured("lsearch0", id_) if rng.chance(0.5) else h.new("lsearch0", id_)
+    c = h.clone(v)
+    h.probe(v, c)              # both fresh -> both used once
+    c2 = h.clone(v)            # clone of a used object
+    h.probe(v, c2)             # both used once -> both used twice
+    if rng.chance(0.5):
+        c3 = h.clone(c2)
+        h.probe(c2, c3)
+    return h.line()
+
+
 def owner_ops(rng, entries, thorough):
     if not entries or not getattr(entries, "owners", None):
         return []
     ops = []
+    for e in entries:
+        if e[0] == "lsearch0":
+            for _ in range(4 if thorough else 2):
+                ops.append(lsearch0_hist(rng, entries, e[1]))
     for e in entries:
         if e[0] == "solver":
             for variant in range(3):
